@@ -8,9 +8,10 @@ CONSTANTS
     BgAllFiles = TRUE
     WaitHonoursTimeout = TRUE
     ThresholdOnEffective = TRUE
+    FailOnCacheError = TRUE
     AllowReg = TRUE
 INIT Init
 NEXT Next
 VIEW core
-INVARIANTS AfterPrefetchPrioritizedReadsAreLocal NoPrefetchLandmarkNoTraffic ConfiguredSizeCapped PrefetchTrafficConfined AfterBackgroundFetchOfflineReadable WaiterClosedAtEnd WaitNilOnlyIfEndedOrAsync WaitResult WaitNeverStuck TypeOK OnceRunsOnce
+INVARIANTS AfterPrefetchPrioritizedReadsAreLocal NoPrefetchLandmarkNoTraffic ConfiguredSizeCapped PrefetchTrafficConfined AfterBackgroundFetchOfflineReadable SuccessMeansCached WaiterClosedAtEnd WaitNilOnlyIfEndedOrAsync WaitResult WaitNeverStuck TypeOK OnceRunsOnce
 CHECK_DEADLOCK FALSE
